@@ -41,7 +41,8 @@ type Profile struct {
 	Blocks      [2]int          // run length range (quick)
 	BlocksThorough [2]int
 	ExportProbe float64 // per block-boundary probability
-	ExpCont     float64 // per run probability of one export-and-continue
+	ExpCont     float64 // (unused)
+	ExpContRuns float64 // fraction of runs that perform one export-and-continue
 	Replicas    int
 	QueryEvery  int
 	TimePromos  float64
@@ -76,6 +77,7 @@ type Gen struct {
 	svcNames []string
 	useModSvcCalls, useHugeFreq, useModule bool
 	rawResponders bool
+	useExpCont, noRawAddrs bool
 	promoAnchors []int64 // interesting instants (offset ns) for targeted block times
 	thorough bool
 	didExpCont bool
@@ -277,7 +279,11 @@ func (g *Gen) oneBlock(active bool) bool {
 	if !g.emit(Op{K: "begin", T: t}) {
 		return false
 	}
-	if active && g.faults["params"] && g.chance(0.03) {
+	pp := 0.03
+	if g.cfg.Property == "C14" {
+		pp = 0.08
+	}
+	if active && g.faults["params"] && g.chance(pp) {
 		if !g.emit(Op{K: "params", Par: g.genParams()}) {
 			return false
 		}
@@ -320,7 +326,7 @@ func (g *Gen) oneBlock(active bool) bool {
 			return false
 		}
 	}
-	if active && g.faults["expcont"] && !g.didExpCont && g.block > g.nBlocks/3 && g.chance(0.15) {
+	if active && g.useExpCont && g.faults["expcont"] && !g.didExpCont && g.block > g.nBlocks/3 && g.chance(0.15) {
 		g.didExpCont = true
 		if !g.emit(Op{K: "expcont"}) {
 			return false
@@ -338,6 +344,17 @@ func (g *Gen) pickReplica() int {
 
 func (g *Gen) genParams() *ParamsOp {
 	p := &ParamsOp{}
+	if g.cfg.Property == "C14" && g.chance(0.6) {
+		// governance moves the minimum deposit (only in this profile: C14 is the property that speaks about
+		// "the parameters in force")
+		if g.chance(0.5) {
+			p.MinDeposit = pickI64(g, []int64{1, 10, 100, 6000, 20000})
+		} else {
+			p.MinDepositMultiple = pickI64(g, []int64{1, 2, 10, 200, 1000, 5000})
+		}
+		g.x.stats.inc("fault_deposit_param_change")
+		return p
+	}
 	switch g.pick(4) {
 	case 0:
 		p.ServiceFeeTax = pickStr(g, []string{"0", "0.01", "0.1", "0.5", "0.999999"})
